@@ -35,6 +35,10 @@ pub struct FloodCase {
     pub send_chunk: usize,
     pub cap_c2s: usize,
     pub cap_s2c: usize,
+    /// > 0: "turnstile" mode instead - this many short-lived clients one after another, each
+    /// connecting, sending one request, receiving its answer and leaving (state that accumulates
+    /// per accepted connection: serial numbers, generation counters, slots)
+    pub cycles: usize,
 }
 
 impl FloodCase {
@@ -47,6 +51,7 @@ impl FloodCase {
             ("send_chunk", json::u(self.send_chunk)),
             ("cap_c2s", json::u(self.cap_c2s)),
             ("cap_s2c", json::u(self.cap_s2c)),
+            ("cycles", json::u(self.cycles)),
         ])
     }
     pub fn from_json(j: &J) -> Result<FloodCase, String> {
@@ -57,12 +62,30 @@ impl FloodCase {
             send_chunk: j.req_usize("send_chunk")?.max(1),
             cap_c2s: j.req_usize("cap_c2s")?.max(64),
             cap_s2c: j.req_usize("cap_s2c")?.max(256),
+            cycles: j.get("cycles").and_then(|x| x.usize()).unwrap_or(0),
         })
     }
 }
 
 pub fn is_flood(j: &J) -> bool {
     j.get("engine").and_then(|x| x.str()) == Some("C-flood")
+}
+
+pub fn gen_turnstile(rng: &mut Rng) -> J {
+    FloodCase {
+        n: 0,
+        answer_at: 0,
+        batch: rng.chance(1, 2),
+        send_chunk: 4096,
+        cap_c2s: 212_992,
+        cap_s2c: 212_992,
+        cycles: match rng.below(3) {
+            0 => rng.range(250, 600),
+            1 => rng.range(65_530, 66_000),
+            _ => rng.range(1000, 3000),
+        },
+    }
+    .to_json()
 }
 
 pub fn gen_flood(rng: &mut Rng) -> J {
@@ -84,6 +107,7 @@ pub fn gen_flood(rng: &mut Rng) -> J {
         send_chunk: *rng.pick(&[1000usize, 4096, 65536]),
         cap_c2s: *rng.pick(&[4096usize, 212_992]),
         cap_s2c: *rng.pick(&[4096usize, 212_992]),
+        cycles: 0,
     }
     .to_json()
 }
@@ -94,6 +118,13 @@ pub fn shrink_flood(j: &J) -> Vec<J> {
         Err(_) => return vec![],
     };
     let mut out = Vec::new();
+    for k in [c.cycles / 2, c.cycles * 3 / 4, c.cycles.saturating_sub(100), c.cycles.saturating_sub(10), c.cycles.saturating_sub(1)] {
+        if k >= 1 && k < c.cycles {
+            let mut d = c.clone();
+            d.cycles = k;
+            out.push(d.to_json());
+        }
+    }
     for n in [c.n / 2, c.n * 3 / 4, c.n.saturating_sub(100), c.n.saturating_sub(10), c.n.saturating_sub(1)] {
         if n >= 1 && n < c.n {
             let mut d = c.clone();
@@ -142,6 +173,9 @@ pub fn exec_flood(case: &J, prop: &'static str, st: &mut Stats) -> Result<RunOut
         };
     }
     world::reset(Config { cap_c2s: case.cap_c2s, cap_s2c: case.cap_s2c, out_threshold: OutThreshold::AnySpace, log: false, first_fd: 3 });
+    if case.cycles > 0 {
+        return exec_turnstile(&case, prop, st);
+    }
     let built = catch_unwind(AssertUnwindSafe(|| -> Result<HttpServer, String> {
         let mut s = HttpServer::new(SOCK_PATH).map_err(|e| format!("HttpServer::new: {}", e))?;
         s.start_server().map_err(|e| format!("start_server: {}", e))?;
@@ -326,6 +360,144 @@ pub fn exec_flood(case: &J, prop: &'static str, st: &mut Stats) -> Result<RunOut
     }
     sig.u(case.n as u64);
     sig.u(max_unanswered as u64);
+    sig.u(case.batch as u64);
+    drop(server);
+    Ok(RunOut { violation: None, nontrivial: true, sig: sig.get(), trace_hash: sig.get() })
+}
+
+
+/// Turnstile mode: `cycles` short-lived clients one after another on one server.
+fn exec_turnstile(case: &FloodCase, prop: &'static str, st: &mut Stats) -> Result<RunOut, String> {
+    let mut sig = Sig::new();
+    let mut step = 0usize;
+    macro_rules! viol {
+        ($class:expr, $detail:expr) => {
+            return Ok(RunOut {
+                violation: Some(Violation::new(&format!("{}:{}", prop, $class), step, $detail)),
+                nontrivial: true,
+                sig: sig.get(),
+                trace_hash: sig.get(),
+            })
+        };
+    }
+    let built = catch_unwind(AssertUnwindSafe(|| -> Result<HttpServer, String> {
+        let mut s = HttpServer::new(SOCK_PATH).map_err(|e| format!("HttpServer::new: {}", e))?;
+        s.start_server().map_err(|e| format!("start_server: {}", e))?;
+        Ok(s)
+    }));
+    let mut server = match built {
+        Ok(Ok(s)) => s,
+        Ok(Err(e)) => viol!("setup", e),
+        Err(p) => viol!("panic", format!("server setup panicked: {}", panic_msg(p))),
+    };
+    let epfd = server.epoll().as_raw_fd();
+    let base_fds = world::with(|w| w.server_fds().len());
+    for k in 0..case.cycles {
+        step = k;
+        st.steps += 1;
+        let conn = match world::with(|w| w.client_connect(SOCK_PATH)) {
+            Ok(c) => c,
+            Err(e) => return Err(format!("client connect failed: errno {}", e)),
+        };
+        let req = request_bytes(k);
+        match world::with(|w| w.client_send(conn, &req)) {
+            Ok(n) if n == req.len() => {}
+            other => return Err(format!("client send: {:?}", other)),
+        }
+        let (resp, want) = response_for(k);
+        let mut resp = Some(resp);
+        let mut got: Vec<u8> = Vec::new();
+        let mut yielded = false;
+        let mut polls = 0;
+        // serve this client to completion
+        loop {
+            polls += 1;
+            if polls > 64 {
+                viol!("spin", format!("client #{}: 64 polls without completing one request/response round trip", k));
+            }
+            if !world::with(|w| w.epoll_readable(epfd)) {
+                viol!(
+                    "lost-wakeup",
+                    format!(
+                        "client #{} (the {}th connection accepted by this server): request yielded = {}, {} of {} response byte(s) received, and the epoll descriptor is not readable",
+                        k,
+                        k + 1,
+                        yielded,
+                        got.len(),
+                        want.len()
+                    )
+                );
+            }
+            st.lib_calls += 1;
+            match catch_unwind(AssertUnwindSafe(|| server.requests())) {
+                Err(p) => viol!("panic", format!("requests() panicked: {}", panic_msg(p))),
+                Ok(Err(e)) => viol!("poll-err", format!("requests() returned Err({}) while serving client #{}", e, k)),
+                Ok(Ok(reqs)) => {
+                    for r in reqs {
+                        let path = r.inner().uri().get_abs_path().to_string();
+                        if yielded || path != format!("/f{}", k) {
+                            viol!("yield-mismatch", format!("client #{}: unexpected request {:?} yielded", k, path));
+                        }
+                        yielded = true;
+                        let mut slot = resp.take();
+                        let sr = r.process(|_| slot.take().expect("one response per request"));
+                        st.lib_calls += 1;
+                        let rr = if case.batch {
+                            catch_unwind(AssertUnwindSafe(|| server.enqueue_responses(vec![sr])))
+                        } else {
+                            catch_unwind(AssertUnwindSafe(|| server.respond(sr)))
+                        };
+                        match rr {
+                            Err(p) => viol!("panic", format!("respond() panicked: {}", panic_msg(p))),
+                            Ok(Err(e)) => viol!("respond-err", format!("respond() for client #{} failed: {}", k, e)),
+                            Ok(Ok(())) => {}
+                        }
+                    }
+                }
+            }
+            loop {
+                match world::with(|w| w.client_recv(conn, 1 << 16)) {
+                    Ok(b) if b.is_empty() => viol!("client-saw-eof", format!("the server closed the connection of client #{} before answering", k)),
+                    Ok(b) => got.extend_from_slice(&b),
+                    Err(e) if e == libc::EAGAIN => break,
+                    Err(e) => viol!("client-recv-failed", format!("client #{}: recv failed with errno {}", k, e)),
+                }
+            }
+            if got.len() >= want.len() {
+                break;
+            }
+        }
+        if got != want {
+            viol!("output-stream-differs", format!("client #{} received {} byte(s) that differ from the response the application supplied ({} bytes)", k, got.len(), want.len()));
+        }
+        world::with(|w| w.client_close(conn));
+        // the server notices the hang-up and releases the connection
+        let mut polls = 0;
+        while world::with(|w| w.epoll_readable(epfd)) {
+            polls += 1;
+            if polls > 16 {
+                viol!("spin", format!("after client #{} left, the epoll descriptor keeps signalling", k));
+            }
+            match catch_unwind(AssertUnwindSafe(|| server.requests())) {
+                Err(p) => viol!("panic", format!("requests() panicked: {}", panic_msg(p))),
+                Ok(Err(e)) => viol!("poll-err", format!("requests() returned Err({}) after client #{} left", e, k)),
+                Ok(Ok(r)) => {
+                    if !r.is_empty() {
+                        viol!("yield-mismatch", format!("{} request(s) yielded after client #{} left", r.len(), k));
+                    }
+                }
+            }
+        }
+        let now = world::with(|w| w.server_fds().len());
+        if now != base_fds {
+            viol!("connection-not-released", format!("after client #{} left and was answered the server process holds {} descriptors, {} before it connected", k, now, base_fds));
+        }
+    }
+    st.probe("turnstile_history");
+    if case.cycles >= 65_536 {
+        st.probe("turnstile_65536_or_more_connections_accepted");
+    }
+    sig.u(case.cycles as u64);
     sig.u(case.batch as u64);
     drop(server);
     Ok(RunOut { violation: None, nontrivial: true, sig: sig.get(), trace_hash: sig.get() })
